@@ -20,14 +20,16 @@ theorem C30_reject_no_effect (P : Parser) (w : World) (kgArg : Option String) (t
 theorem C30_in_order (P : Parser) (w : World) (kgArg : Option String) (text : List Char)
     (hk : hasKg w (kgArg.getD "default") = true) (h : hasSyntaxError P text = false) :
     queryProgram P w kgArg text =
-      match specRun P ⟨w, kgArg.getD "default", [], none, none, [], [], []⟩ (logicalLines text) with
-      | .abort s e => ⟨s.w, .err e, s.trace⟩
-      | .cont s => finish P s := by
+      match specRun P ⟨w, kgArg.getD "default", [], none, none, [], []⟩ [] (logicalLines text) with
+      | (.abort s e, tr) => ⟨s.w, .err e, tr⟩
+      | (.cont s, tr) => finish P s tr := by
   unfold queryProgram
   unfold hasSyntaxError at h
   simp only [hk, h]
-  rw [phase2_eq_specRun P (logicalLines text) _ (fun l hl => logicalLines_trimmed text l hl)]
-  cases specRun P ⟨w, kgArg.getD "default", [], none, none, [], [], []⟩ (logicalLines text) <;> rfl
+  rw [phase2_eq_specRun P (logicalLines text) _ _ (fun l hl => logicalLines_trimmed text l hl)]
+  simp only [Bool.not_true, Bool.false_eq_true, if_false]
+  rcases specRun P ⟨w, kgArg.getD "default", [], none, none, [], []⟩ [] (logicalLines text) with ⟨st, tr⟩
+  cases st <;> rfl
 
 /-! ### the `execute_program` wrapper -/
 
@@ -60,8 +62,8 @@ theorem C30_partial (P : Parser) (w : World) (rq : Req)
     (h : hasSyntaxError P rq.text = true) (hi : intercepted P w rq = false) (hs : slowPath w rq = false) :
     (execProgram P w rq).w = w ∧ isErr (execProgram P w rq).res = true := by
   have hrest : ∀ role curKg,
-      (execProgram.execRest P w rq role (parseStatement P (trim rq.text)) (if rq.useSess then rq.user.bind (findSess w) else none) curKg).w = w ∧
-      isErr (execProgram.execRest P w rq role (parseStatement P (trim rq.text)) (if rq.useSess then rq.user.bind (findSess w) else none) curKg).res = true := by
+      (execRest P w rq role (parseStatement P (trim rq.text)) (sessOf w rq) curKg).w = w ∧
+      isErr (execRest P w rq role (parseStatement P (trim rq.text)) (sessOf w rq) curKg).res = true := by
     intro role curKg
     apply execRest_reject P w rq role _ _ curKg h
     · intro hsome st hst
@@ -76,8 +78,9 @@ theorem C30_partial (P : Parser) (w : World) (rq : Req)
       rw [hse, hq] at hs
       simpa using hs
     · intro se hse; exact sraw_found w rq se hse
+  generalize hsraw : (sessOf w rq) = sraw at hrest
   unfold execProgram
-  simp only []
+  simp only [hsraw]
   split
   · simp [isErr]
   · split
@@ -100,7 +103,9 @@ theorem C30_partial (P : Parser) (w : World) (rq : Req)
       · rename_i heq; exact absurd rfl (hfast _ heq).2.2.2.2
       · split
         · simp [isErr]
-        · exact hrest _ _
+        · split
+          · simp [isErr]
+          · exact hrest _ _
       · exact hrest _ _
 
 /-- grammar of the examples: two inserts and one unparsable line -/
